@@ -40,8 +40,9 @@ def lit(v): return ['lit', v]
 
 
 class Gen:
-    def __init__(self, rng):
+    def __init__(self, rng, wf_calls=False):
         self.r = rng
+        self.wf_calls = wf_calls      # only extension calls that have a Cedar text form (known name, methods with a receiver)
 
     # ---------------- values
     def uid(self, small=True):
@@ -182,6 +183,8 @@ class Gen:
             return self.typed_leaf('set')
         if want == 'rec':
             if r.random() < 0.6:
+                if self.wf_calls:
+                    return ['mkrec'] + [[S(k), self.expr(depth - 1)] for k in r.sample(KEYS, r.randrange(0, 4))]
                 return ['mkrec'] + [[S(r.choice(KEYS)), self.expr(depth - 1)] for _ in range(r.randrange(0, 4))]
             return self.typed_leaf('rec')
         if want in ('entity', 'string', 'dec', 'ip'):
@@ -199,6 +202,10 @@ class Gen:
         if k < 0.6:
             return ['if', self.expr(depth - 1, 'bool'), self.expr(depth - 1), self.expr(depth - 1)]
         if k < 0.7:
+            if self.wf_calls:
+                n = r.choice(self.EXT1 + self.EXT2)
+                lo = 0 if n in ('decimal', 'ip', 'datetime', 'duration') else 1
+                return ['call', S(n)] + [self.expr(depth - 1) for _ in range(r.choice([lo, 1, 1, 2, 2, 3]))]
             n = r.choice(self.EXT1 + self.EXT2 + ['nosuch', 'decimal'])
             return ['call', S(n)] + [self.expr(depth - 1) for _ in range(r.choice([0, 1, 1, 2, 2, 3]))]
         if k < 0.8:
